@@ -12,6 +12,7 @@ pub mod spec;
 pub mod stubs;
 
 pub mod obs;
+pub mod step;
 
 /// Declares the harness instances: a `#[kani::proof]` wrapper under Kani and an entry of the
 /// native dispatch table otherwise.
@@ -40,6 +41,7 @@ macro_rules! harnesses {
         #[kani::proof]
         #[kani::unwind($unwind)]
         #[kani::stub(std::alloc::Global::grow_impl_runtime, crate::stubs::grow_unreachable)]
+        #[kani::stub(std::alloc::Global::alloc_impl_runtime, crate::stubs::alloc_ladder)]
         pub fn $name() { let mut s = src::KaniSrc; ($body)(&mut s); }
     };
     (@proof $name:ident, $unwind:literal, growmodel, $body:expr) => {
